@@ -263,6 +263,12 @@ func init() {
 		if !sex {
 			exhaustive = false
 		}
+		rcov, rprobes, rex := c13Registration(rep, pool)
+		if !rex {
+			exhaustive = false
+		}
+		rep.Cov["registration"] = rcov
+		probes += rprobes
 		rep.Cov["concurrent_requests"] = per
 		rep.Cov["schedules"] = sexecs
 		rep.Cov["states"] = len(lists)
